@@ -171,4 +171,14 @@ def readResponse (disableNorm : Bool) (maxBody : Nat) (e : End) (s : Bytes) : Ex
   | .error x => .error x
   | .ok (hd, s1) => readBodyPart disableNorm maxBody e hd s1
 
+/-- `resp.ReadHeaderAndLimitBody` on a `Response` whose `SkipBody` flag is set (the client sets it for a
+HEAD request): `ReadRespBody` returns at once when `resp.MustSkipBody()` (= `SkipBody ||
+MustSkipContentLength`).  With the flag off this is `readResponse`. -/
+def readResponseSkip (skipBody : Bool) (disableNorm : Bool) (maxBody : Nat) (e : End) (s : Bytes) : Except Err Result :=
+  match readHeaders disableNorm e s with
+  | .error x => .error x
+  | .ok (hd, s1) =>
+    if skipBody then .ok { head := hd, body := [], trailers := hd.trailer.map (fun k => (k, ([] : Bytes))), rest := s1 }
+    else readBodyPart disableNorm maxBody e hd s1
+
 end Hertz.H1.RespRead
